@@ -8,7 +8,7 @@ import harness as H
 import native
 from interp import Panic, Unsupported, Divergence, Adt, Sink, Ref, deref, as_str, ENUMS
 from models import explore
-from sym import Selector, SymVal
+from sym import Selector, SymVal, smap
 
 
 class Session:
@@ -698,3 +698,140 @@ def c12(tier):
                   'Outside: maps with more entries, directory enumeration order of the CLI (covered by (ii) through Files::add order).',
                   extra_assumptions=['HashMap contract: iteration order is arbitrary but fixed while the map is not modified; each map gets its own order',
                                      'replay of hash-seed findings is statistical: fresh native processes until two outputs differ (<= 48 runs)'])
+
+
+# ================================================================================================ C08
+
+def ns_prefix_map(items):
+    """prefix -> set of URIs, from every struct-level `namespaces = {...}` of the output"""
+    out = {}
+    for it in items:
+        if it.kind == 'struct' and it.attrs is not None:
+            ns = RO.one(O.attr_get(it.attrs, 'namespaces'))
+            if isinstance(ns, tuple):
+                for p, u in ns:
+                    out.setdefault(p, set()).add(u)
+    return out
+
+
+def inherited_fields(env, info, fn, ct, mp):
+    """expected field list of a complex type including everything inherited (reference semantics of xs:extension)"""
+    base = info.bases.get(ct.name)
+    bf = []
+    if base is not None:
+        bfn, bct = base
+        bf = inherited_fields(env, info, bfn, bct, mp)
+    sch = info.schemas[fn]
+    own = O.expected_fields(env, sch, ct, mp)
+    for f in own:
+        f['decl_ns'] = sch.tns
+    return bf + own
+
+
+def extension_oracle(env, items, info, m):
+    mp, _ = mod_map(items, info, env)
+    out = []
+    pm = ns_prefix_map(items)
+    for fn, ct in info.subjects:
+        out += O.check_struct_members(env, items, info.schemas[fn], ct, ct.name, mp)
+    for fn, ct, base in info.derived:
+        sch = info.schemas[fn]
+        bf = inherited_fields(env, info, base[0], base[1], mp)
+        checks = O.check_struct_members(env, items, sch, ct, ct.name, mp, base_fields=bf, tag=' (derived)')
+        for c in checks:
+            c.key = 'derived-' + c.key
+        out += checks
+        # members keep the namespace of the schema that declared them
+        name = pascal(ct.name)
+        cands = O.find_structs(items, name, env.allowed)
+        if len(cands) == 1:
+            st = cands[0]
+            exp = getattr(st, 'expected', [])
+            own_fields = O.expected_fields(env, sch, ct, mp)
+            for f in own_fields:
+                f['decl_ns'] = sch.tns
+            full = bf + own_fields
+            for i, (fa, fd) in enumerate(st.fields[:len(full)]):
+                e = full[i]
+                if e.get('attr'):
+                    continue
+                pfx = RO.one(O.attr_get(fa, 'prefix'))
+                uris = pm.get(pfx, set())
+                ok = e.get('decl_ns') in uris if pfx is not None else False
+                out.append(O.Check('derived-member-namespace', '%s field #%d (%s): prefix %r must be bound to the declaring namespace %s (bound to %s)' % (
+                    ct.name, i, RO.one(e['rename']), pfx, e.get('decl_ns'), sorted(uris)), ok))
+    return out
+
+
+def c08(tier):
+    def body(s):
+        s.functions.update(n for n in s.ctx.bodies if re.search(r'read_complex_content_node|import_extension_fields|import_sequence|find_node_by_xml_name|try_to_find_node', n))
+        fams = [F.x_chain(tier), F.x_chain(tier, decoy=True), F.x_cross(tier)]
+        for sc, info in fams:
+            scenario_check(s, sc, info, extension_oracle, classify=lambda c, p, i: (c.cls(p) if c.cls else ''))
+    return run_e2('C08', tier, body, bounds='extension chains of depth 1..2 plus an empty extension, fan-out 2, in one file with %s declaration orders, with and without a decoy type '
+                  'whose local element/attribute names equal the base type names; base in another namespace and file with both declaration orders. Own content: '
+                  'sequence, sequence+choice, attributes inside xs:extension, attributes on the base. Outside: depth > 2, complexContent/restriction.' % ('all 24' if tier == 'thorough' else '6'))
+
+
+# ================================================================================================ C09
+
+def struct_by_member(items, member_rename, name=None):
+    """module of the struct that has a field renamed `member_rename` (used to identify which Thing is which)"""
+    for it in items:
+        if it.kind == 'struct' and (name is None or RO.one(it.name) == name):
+            for fa, fd in it.fields:
+                if RO.one(O.attr_get(fa, 'rename')) == member_rename:
+                    return it
+    return None
+
+
+def qname_oracle(env, items, info, m):
+    out = []
+    if hasattr(info, 'things'):
+        # which module holds which Thing: identified by its distinguishing member
+        s1 = struct_by_member(items, 'x1', 'Thing')
+        s2 = struct_by_member(items, 'x2', 'Thing')
+        out.append(O.Check('both-components-emitted', 'both namespaces\' Thing are emitted as separate structs', s1 is not None and s2 is not None and s1 is not s2))
+        if s1 is None or s2 is None:
+            return out
+        modof = {'t': RO.one(s1.module), 'm': RO.one(s2.module)}
+        out.append(O.Check('modules-distinct', 'the two namespaces live in different modules', modof['t'] != modof['m']))
+        users = O.find_structs(items, 'User', env.allowed)
+        out.append(O.Check('struct-exactly-once', 'User emitted once', len(users) == 1))
+        if len(users) == 1 and users[0].fields:
+            ftype = smap(lambda t: t[1], users[0].fields[0][1])
+            exp = env.map(lambda q: '%s::Thing' % modof[q.split(':')[0]], info.tref)
+            out.append(O.Check('type-ref-namespace', 'User.thing must name the Thing of the namespace bound to the prefix used in type=', RO.sym_eq(ftype, exp, env.allowed)))
+        ders = O.find_structs(items, 'Special', env.allowed)
+        out.append(O.Check('struct-exactly-once', 'Special emitted once', len(ders) == 1))
+        if len(ders) == 1:
+            names = tuple(RO.one(O.attr_get(fa, 'rename')) for fa, fd in ders[0].fields)
+            exp = env.map(lambda q: ('x1', 'extra') if q.startswith('t:') else ('x2', 'y2', 'extra'), info.bref)
+            out.append(O.Check('base-ref-namespace', 'Special must inherit the members of the Thing of the namespace bound to the prefix used in base=', RO.sym_eq(names, exp, env.allowed)))
+        return out
+    # rebind
+    prob = {}
+    for ns, (owner, member) in info.probes.items():
+        st = struct_by_member(items, member, owner if owner != 'Top' and owner != 'Holder' else None)
+        prob[ns] = RO.one(st.module) if st is not None else None
+    for owner, field, ns in info.expect:
+        sts = O.find_structs(items, owner, env.allowed)
+        out.append(O.Check('struct-exactly-once', '%s emitted once' % owner, len(sts) == 1))
+        if len(sts) == 1:
+            f = [fd for fa, fd in sts[0].fields if RO.one(O.attr_get(fa, 'rename')) == field]
+            if f:
+                ftype = RO.one(f[0])[1]
+                out.append(O.Check('prefix-scope', '%s.%s: prefix t is bound to %s in the declaring file, so the type must be %s::Inner (is %s)' % (owner, field, ns, prob[ns], ftype),
+                                   ftype == '%s::Inner' % prob[ns]))
+    return out
+
+
+def c09(tier):
+    def body(s):
+        s.functions.update(n for n in s.ctx.bodies if re.search(r'find_node_by_xml_name|try_to_find_node|resolve_type|split_type|as_rust_type|add_namespace_reference|collect_namespaces', n))
+        for sc, info in [F.q_types(tier), F.q_rebind(tier)]:
+            scenario_check(s, sc, info, qname_oracle, classify=lambda c, p, i: ','.join('%s=%s' % (k, v) for k, v in sorted(p.items()) if k != 'order'))
+    return run_e2('C09', tier, body, bounds='two namespaces in two files defining complexTypes with the same local name; type= and base= references whose prefix is symbolic; '
+                  'declaration order symbolic (3 or all 6 orders); one prefix bound to different namespaces in different files. Outside: element ref= / message part collisions '
+                  '(exercised by C05), kinds other than complexType.')
